@@ -111,6 +111,20 @@ pub trait Shape: Clone + Default + Debug + PartialEq + Send + Sync + 'static {
     }
 }
 
+thread_local! {
+    /// Timing setters `build_tl` / `build_via_builder` leave out (bit 0 duration, 1 delay, 2 repeat, 3 reverse): the
+    /// builder's own defaults then apply. Set through `with_omitted`.
+    pub static OMIT_TIMING: std::cell::Cell<u8> = const { std::cell::Cell::new(0) };
+}
+
+/// Runs `f` with the given timing setters omitted from every timeline built inside it (on this thread).
+pub fn with_omitted<T>(mask: u8, f: impl FnOnce() -> T) -> T {
+    let old = OMIT_TIMING.with(|o| o.replace(mask));
+    let out = f();
+    OMIT_TIMING.with(|o| o.set(old));
+    out
+}
+
 pub fn build_merged<S: Shape>(specs: &[TlSpec]) -> MergedTimeline<S::Tl> {
     MergedTimeline::of(specs.iter().map(|s| S::build_tl(s)))
 }
@@ -239,7 +253,11 @@ macro_rules! shape_impl {
                 let easing_last = spec.kfs.len() % 2 == 1;
                 let mut b = <$anim>::timeline();
                 if !timing_last {
-                    b = b.duration_seconds(spec.cycle).delay_seconds(spec.delay).repeat(spec.repeat.to_mina()).reverse(spec.reverse);
+                    let om = $crate::shapes::OMIT_TIMING.with(|o| o.get());
+                    if om & 1 == 0 { b = b.duration_seconds(spec.cycle); }
+                    if om & 2 == 0 { b = b.delay_seconds(spec.delay); }
+                    if om & 4 == 0 { b = b.repeat(spec.repeat.to_mina()); }
+                    if om & 8 == 0 { b = b.reverse(spec.reverse); }
                 }
                 if let (false, Some(e)) = (easing_last, &spec.default_easing) {
                     b = b.default_easing(e.make());
@@ -272,7 +290,11 @@ macro_rules! shape_impl {
                     b = b.default_easing(e.make());
                 }
                 if timing_last {
-                    b = b.reverse(spec.reverse).repeat(spec.repeat.to_mina()).delay_seconds(spec.delay).duration_seconds(spec.cycle);
+                    let om = $crate::shapes::OMIT_TIMING.with(|o| o.get());
+                    if om & 8 == 0 { b = b.reverse(spec.reverse); }
+                    if om & 4 == 0 { b = b.repeat(spec.repeat.to_mina()); }
+                    if om & 2 == 0 { b = b.delay_seconds(spec.delay); }
+                    if om & 1 == 0 { b = b.duration_seconds(spec.cycle); }
                 }
                 ::mina::TimelineBuilder::build(b)
             }
@@ -287,7 +309,11 @@ macro_rules! shape_impl {
                 let easing_last = spec.kfs.len() % 2 == 1;
                 let mut b = <$anim>::timeline();
                 if !timing_last {
-                    b = b.duration_seconds(spec.cycle).delay_seconds(spec.delay).repeat(spec.repeat.to_mina()).reverse(spec.reverse);
+                    let om = $crate::shapes::OMIT_TIMING.with(|o| o.get());
+                    if om & 1 == 0 { b = b.duration_seconds(spec.cycle); }
+                    if om & 2 == 0 { b = b.delay_seconds(spec.delay); }
+                    if om & 4 == 0 { b = b.repeat(spec.repeat.to_mina()); }
+                    if om & 8 == 0 { b = b.reverse(spec.reverse); }
                 }
                 if let (false, Some(e)) = (easing_last, &spec.default_easing) {
                     b = b.default_easing(e.make());
@@ -320,7 +346,11 @@ macro_rules! shape_impl {
                     b = b.default_easing(e.make());
                 }
                 if timing_last {
-                    b = b.reverse(spec.reverse).repeat(spec.repeat.to_mina()).delay_seconds(spec.delay).duration_seconds(spec.cycle);
+                    let om = $crate::shapes::OMIT_TIMING.with(|o| o.get());
+                    if om & 8 == 0 { b = b.reverse(spec.reverse); }
+                    if om & 4 == 0 { b = b.repeat(spec.repeat.to_mina()); }
+                    if om & 2 == 0 { b = b.delay_seconds(spec.delay); }
+                    if om & 1 == 0 { b = b.duration_seconds(spec.cycle); }
                 }
                 ::mina::TimelineOrBuilder::build(b)
             }
